@@ -206,6 +206,8 @@ func c07(c *Ctx) {
 	c.Expect("gate/isPrimary-def", strings.Join(c.returnsOf("litefs.(*Store).isPrimary"), ";"), pat("(p0.lease != nil)"), "isPrimary() is lease != nil", "")
 	c.Expect("gate/HasRemoteHaltLock-def", strings.Join(c.returnsOf("litefs.(*DB).HasRemoteHaltLock"), ";"), pat("(sync/atomic.(*Value).Load(&p0.remoteHaltLock).(*litefs.HaltLock) != nil)"), "HasRemoteHaltLock() is remoteHaltLock != nil", "")
 
+	c.remoteHaltFamily("remote-halt")
+
 	// fuse: database removal
 	rm := "fuse.(*RootNode).Remove"
 	c.Guarded("gate/fuse-Remove-Drop", rm, p.Calls("litefs.(*DB).Drop"), gs(GP("litefs.(*Store).IsPrimary(p0.fsys.store)", true)), 1,
